@@ -396,6 +396,15 @@ def run(tier):
     t0 = _t.time()
     lint_res = core.run_impl('c18_lint', [c for _, c in cases])
     chk.notes.append(f'lint phase {_t.time() - t0:.1f}s')
+    # "the same model always gives the same warnings": also in ANOTHER interpreter process with another string-hash seed (a warning
+    # list built by iterating a set would come out in a different order there)
+    sub = list(range(0, len(cases), max(1, len(cases) // 400)))
+    for seed in ('1', '77'):
+        again = core.run_impl('c18_lint', [cases[i][1] for i in sub], env=core.impl_env({'PYTHONHASHSEED': seed}))
+        for i, res2 in zip(sub, again):
+            if res2 != lint_res[i] and len(chk.oracle_fail) < 20:
+                chk.oracle_fail.append({'class': 'warnings-depend-on-the-process-hash-seed', 'source': json.dumps(cases[i][1])[:600], 'input': cases[i][1],
+                                        'PYTHONHASHSEED': seed, 'seed0': lint_res[i], 'other': res2})
 
     # ---------------- direct oracle, static part
     t00 = _t.time()
